@@ -36,13 +36,14 @@ ASSUMPTIONS = [
     "dosing_compartments raising ValueError for a system with doses but no output flow ('Cannot find central "
     "compartment') is treated as a documented refusal of that accessor and not judged",
     "compartments named METABOLITE/EFFECT/COMPLEX/RESPONSE, self flows, amounts other than the default A_<name>(t), "
-    "stale Compartment handles and substitution of t or of amounts are not generated (docs silent)",
+    "stale Compartment handles and substitution of t are not generated (docs silent); renaming an amount function through subs "
+    "is judged for self-consistency only (equations closed over the system's own amounts, same right-hand sides)",
     "dose order inside a compartment is not compared (Compartment.doses documents a re-ordering)",
 ]
 MIN_NONTRIVIAL = {"quick": 1000, "thorough": 15000}
 REQUIRED_MONITORS = ["lengths", "lhs", "rhs_vs_shadow", "matrix_entries", "matrix_product", "inputs_vs_shadow",
                      "mass_balance", "tcs_vector_field", "roundtrip_eq", "roundtrip_json_eq", "roundtrip_vs_shadow",
-                     "subs", "doses_vs_shadow", "lag_vs_shadow", "F_vs_shadow", "get_flow", "outflows", "inflows",
+                     "subs", "subs_amount", "doses_vs_shadow", "lag_vs_shadow", "F_vs_shadow", "get_flow", "outflows", "inflows",
                      "dosing_compartments", "snapshot_unchanged", "stratum:nodose", "stratum:upstream_or_disconnected",
                      "stratum:nonlinear_rate", "stratum:move_dose", "stratum:second_order", "stratum:nooutput"]
 
@@ -718,6 +719,71 @@ def check_subs(c, rng, cs, sh, symbols, label, text):
         check_accessors(c, cs_s, sh, pts, None, lab, text)
 
 
+def check_subs_amount(c, rng, cs, symbols, label, text):
+    """Renaming the amount function of one compartment (a substitution keyed by a function, not by a symbol).  The docs
+    are silent on what such a substitution should give, so only self-consistency is demanded: the result must still be
+    ONE system - every amount function that occurs in its equations is one of its amounts, the derivative on the left of
+    equation i is that of amounts[i] - and its right-hand sides must equal those of the original with the renamed function
+    standing for the old one."""
+    import sympy
+    from pharmpy.basic import Expr
+    from sympy.core.function import AppliedUndef
+
+    from vp.ir_eval import ev, to_sympy
+
+    names = list(cs.compartment_names)
+    if not names:
+        return
+    old_eqs = list(cs.eqs)
+    used = set()
+    for e in old_eqs:
+        used |= {str(f.func) for f in to_sympy(e.rhs).atoms(AppliedUndef)}
+    cands = [n for n in names if str(cs.find_compartment(n).amount.name if hasattr(cs.find_compartment(n).amount, "name") else "") in used]
+    if not cands:
+        c.hit("subs_amount_not_applicable")
+        return
+    nm = rng.choice(cands)
+    oldf = cs.find_compartment(nm).amount
+    newname = "A_ZZRENAMED"
+    key = Expr.function(oldf.name, "t")
+    val = Expr.function(newname, "t")
+    if rng.random() < 0.5:
+        key, val = to_sympy(key), to_sympy(val)
+    try:
+        cs_s = cs.subs({key: val})
+        new_eqs = list(cs_s.eqs)
+        amounts = [to_sympy(a) for a in cs_s.amounts]
+    except Exception as e:
+        c.violate(None, f"[{label}] subs(amount {oldf.name}(t) -> {newname}(t)) raised {type(e).__name__}: {e}", {"ops": text})
+        return
+    c.hit("subs_amount")
+    own = {str(a) for a in amounts}
+    for i, e in enumerate(new_eqs):
+        stray = sorted(str(f) for f in to_sympy(e.rhs).atoms(AppliedUndef) if str(f) not in own)
+        if stray:
+            c.violate(None, f"[{label}] after renaming the amount {oldf.name}(t) to {newname}(t) equation {i} refers to {stray}, "
+                            f"which is none of the system's amounts {sorted(own)}", {"ops": text})
+            return
+    if len(new_eqs) != len(old_eqs):
+        c.violate(None, f"[{label}] renaming an amount changed the number of equations {len(old_eqs)} -> {len(new_eqs)}", {"ops": text})
+        return
+    by_lhs_old = {str(to_sympy(e.lhs)): e for e in old_eqs}
+    for env, _, funcs in make_points(rng, set(symbols), 3):
+        f2 = dict(funcs)
+        f2[newname] = funcs.get(str(oldf.name), 1.0)
+        for e in new_eqs:
+            lhs = str(to_sympy(e.lhs)).replace(newname, str(oldf.name))
+            eo = by_lhs_old.get(lhs)
+            if eo is None:
+                c.violate(None, f"[{label}] after renaming an amount the equation for {lhs} has no counterpart", {"ops": text})
+                return
+            a = ev(eo.rhs, env, funcs)
+            b = ev(e.rhs, env, f2)
+            if abs(a - b) > 1e-9 * (abs(a) + abs(b) + 1e-12):
+                c.violate(None, f"[{label}] renaming the amount {oldf.name}(t) changed the right-hand side of {lhs}: {a} vs {b}", {"ops": text})
+                return
+
+
 # ------------------------------------------------------------------ the case
 def run_case(rng, idx, tier):
     c = Case()
@@ -756,6 +822,8 @@ def run_case(rng, idx, tier):
         check_tcs(c, cs, sh, pts[:4], ops, "final", text)
         check_roundtrip(c, cs, sh, pts, ops, "final", text)
         check_subs(c, rng, cs, sh, symbols, "final", text)
+        if rng.random() < 0.5:
+            check_subs_amount(c, rng, cs, symbols, "final", text)
     # systems built in the middle of the history are unaffected by the later builder calls
     for cs_mid, sh_mid, k in run.snaps:
         c.hit("snapshot_unchanged")
